@@ -1,7 +1,6 @@
 package main
 
 import (
-	"sync/atomic"
 	"bufio"
 	"bytes"
 	"context"
@@ -13,6 +12,7 @@ import (
 	"sort"
 	"strings"
 	"sync"
+	"sync/atomic"
 	"time"
 )
 
@@ -217,9 +217,10 @@ type job struct {
 // so a pool of small helper processes (this same binary, "worker" mode) is started before loading and
 // runs the solvers.
 type workerReq struct {
-	SMT     string `json:"smt"`
-	Timeout int    `json:"timeout"`
-	Only    string `json:"only,omitempty"` // run just this solver
+	SMT     string   `json:"smt"`
+	Timeout int      `json:"timeout"`
+	Only    string   `json:"only,omitempty"` // run just this solver
+	Skip    []string `json:"skip,omitempty"` // solvers not to be asked (distrusted in this run, see vacuityGuard)
 }
 type workerResp struct {
 	Status string  `json:"status"` // unsat sat unknown
@@ -292,6 +293,15 @@ func workerMain() {
 		for _, sg := range stages {
 			var st, o string
 			var secs float64
+			skipped := false
+			for _, sk := range req.Skip {
+				if sk == solvers[sg.solver].name {
+					skipped = true
+				}
+			}
+			if skipped {
+				continue
+			}
 			if sg.solver == 0 {
 				var ok bool
 				st, o, secs, ok = persistentZ3(req.SMT, sg.t)
@@ -312,9 +322,16 @@ func workerMain() {
 	}
 }
 
+// distrusted: solvers that answered "unsat" on a background theory no other solver could refute (a solver anomaly); they are not
+// asked again in this run. Written only by vacuityGuard, before the obligations are solved.
+var distrusted []string
+
 func (w *worker) ask(req *workerReq) workerResp {
 	var resp workerResp
 	resp.Status = "unknown"
+	if req.Only == "" {
+		req.Skip = distrusted
+	}
 	if err := w.in.Encode(req); err != nil {
 		resp.Raw = "worker write: " + err.Error()
 		return resp
